@@ -8,6 +8,8 @@ CONSTANTS
   MaxIds = 3
   WTick = 1
   WData = 1
+  WConn = 1
+  DisruptEvery = 1
   MaxDepth = 7
 VIEW View
 INVARIANT InvWithinCapacity
